@@ -327,6 +327,18 @@ theorem poll_length (cfg : Cfg) (h : Handle) (fuel : Nat) (o : SugOp) (handed : 
         exact Nat.succ_le_succ (ih _ _ _)
       · simp
 
+/-- an unfinished operation that `GetOperation` keeps returning: the loop uses all its fuel, whatever it is -/
+theorem poll_stuck (cfg : Cfg) (h : Handle) (o : SugOp) (handed : List Trial) (db : DB) (hnd : o.done = false)
+    (hget : step cfg db (.getOperation h.owner h.sid o.client o.num) = (.op o.client o handed, db)) :
+    ∀ fuel, (poll cfg h fuel o handed db).1 = .exhausted ∧ (poll cfg h fuel o handed db).2.1.length = fuel := by
+  intro fuel
+  induction fuel with
+  | zero => simp [poll, hnd]
+  | succ n ih =>
+    unfold poll
+    simp only [hnd, Bool.false_eq_true, if_false, hget, List.length_cons]
+    exact ⟨ih.1, by rw [ih.2]⟩
+
 theorem clientExec_reqs_length (cfg : Cfg) (fuel : Nat) (h : Handle) (c : Call) (db : DB) :
     (clientExec cfg fuel h c db).reqs.length ≤ fuel + 2 := by
   have hsug : ∀ count ov alg, (getSuggestions cfg fuel h count ov alg db).reqs.length ≤ fuel + 2 := by
@@ -342,9 +354,11 @@ theorem clientExec_reqs_length (cfg : Cfg) (fuel : Nat) (h : Handle) (c : Call) 
   cases c with
   | suggest count worker alg => exact hsug count (some worker) alg
   | getSuggestions count alg => exact hsug count none alg
-  | addTrial params final =>
+  | addTrial params final inSpace =>
     simp only [clientExec]
-    split <;> simp
+    split
+    · simp
+    · split <;> simp
   | _ => simp [clientExec, rpc1]
 
 /-! ### a worker assignment is stable while the trial exists -/
